@@ -12,7 +12,12 @@ Report(kind, rec) == PrintT(<<kind, ToJson(rec)>>)
 KindS(t, p) == IF p = Root THEN "root" ELSE t[p].k
 WantS(a) == IF a = AnyErr THEN <<"anyerr">> ELSE IF a = AnyErr \cup {"ok"} THEN <<"any">> ELSE IF a = {"ok"} THEN <<"ok">> ELSE <<"other">>
 
-Init == l = 1 /\ w = <<EmptyTree, EmptyTree>> /\ tainted = FALSE /\ seg = 0 /\ cfg = <<"-", "-">>
+\* what was judged (vacuity guard): TLC registers, single worker; totals are printed with DONE
+CN == [inits |-> 401, calls |-> 402, spec_ok |-> 403, spec_fail |-> 404, cross_instance |-> 405, same_instance |-> 406, err_labelled |-> 407]
+Bump(i) == TLCSet(i, TLCGet(i) + 1)
+BumpIf(c, i) == IF c THEN Bump(i) ELSE TRUE
+Counters == [x \in DOMAIN CN |-> TLCGet(CN[x])]
+Init == l = 1 /\ w = <<EmptyTree, EmptyTree>> /\ tainted = FALSE /\ seg = 0 /\ cfg = <<"-", "-">> /\ \A x \in DOMAIN CN : TLCSet(CN[x], 0)
 SegInit ==
   /\ l <= Len(Rec) /\ Rec[l].ev = "init2"
   /\ LET e == Rec[l]
@@ -21,7 +26,7 @@ SegInit ==
                        \cup (IF WellFormedObs(e.obs[k]) THEN {} ELSE {"wellformed"})
                        \cup (IF ObserversAgree(e.obs[k]) THEN {} ELSE {"observers"})
                        \cup (IF NoPanicObs(e.obs[k]) THEN {} ELSE {"nopanic"}) : k \in {1, 2}} IN
-     /\ w' = t /\ cfg' = e.cfgs /\ tainted' = (bad # {}) /\ seg' = seg + 1
+     /\ w' = t /\ cfg' = e.cfgs /\ tainted' = (bad # {}) /\ seg' = seg + 1 /\ Bump(CN.inits)
      /\ IF bad = {} THEN TRUE ELSE Report("VIOL", [l |-> l, seg |-> seg + 1, secondary |-> FALSE, conjs |-> bad,
                                                     sig |-> [conj |-> "init", op |-> "init", kind |-> "x2", cfg |-> e.cfgs]])
   /\ l' = l + 1
@@ -37,6 +42,8 @@ Call ==
                 \cup (IF WellFormedObs(e.obs[1]) /\ WellFormedObs(e.obs[2]) THEN {} ELSE {"wellformed"})
                 \cup (IF ObserversAgree(e.obs[1]) /\ ObserversAgree(e.obs[2]) THEN {} ELSE {"observers"})
                 \cup (IF e.res.c \in ErrClasses => EpOK(e.res.ep, e.p, e.q) THEN {} ELSE {"errpath"}) IN
+     /\ Bump(CN.calls) /\ BumpIf(r.regime = "spec" /\ e.res.c = "ok" /\ "ok" \in r.allowed, CN.spec_ok) /\ BumpIf(r.regime = "spec" /\ "ok" \notin r.allowed, CN.spec_fail)
+     /\ BumpIf(e.i # e.j, CN.cross_instance) /\ BumpIf(e.i = e.j, CN.same_instance) /\ BumpIf(e.res.c \in ErrClasses, CN.err_labelled)
      /\ w' = <<TreeOfObs(e.obs[1]), TreeOfObs(e.obs[2])>>
      /\ tainted' = (tainted \/ bad # {})
      /\ IF bad = {} THEN TRUE
@@ -50,6 +57,6 @@ Call ==
 Next == SegInit \/ Call
 TrSpec == Init /\ [][Next]_vars
 Consumed ==
-  IF TLCGet("stats").diameter - 1 = Len(Rec) THEN Report("DONE", [events |-> Len(Rec)])
+  IF TLCGet("stats").diameter - 1 = Len(Rec) THEN Report("DONE", [events |-> Len(Rec), judged |-> Counters])
   ELSE Report("STUCK", [at |-> TLCGet("stats").diameter, of |-> Len(Rec)]) /\ FALSE
 =============================================================================
